@@ -234,6 +234,30 @@ def sha(path):
     return hashlib.sha256(open(path, "rb").read()).hexdigest()
 
 
+class private_tmp:
+    """while active, tempfile's default directory is <d>/tmp -- inside the observed tree, so scratch
+    files the library forgets there show up in the listing"""
+
+    def __init__(self, d):
+        self.t = os.path.join(d, "tmp")
+        os.makedirs(self.t, exist_ok=True)
+
+    def __enter__(self):
+        import tempfile
+        self.saved = (tempfile.tempdir, os.environ.get("TMPDIR"))
+        tempfile.tempdir = self.t
+        os.environ["TMPDIR"] = self.t
+        return self
+
+    def __exit__(self, *a):
+        import tempfile
+        tempfile.tempdir = self.saved[0]
+        if self.saved[1] is None:
+            os.environ.pop("TMPDIR", None)
+        else:
+            os.environ["TMPDIR"] = self.saved[1]
+
+
 def listing(root):
     """relative path -> 'd' | sha256, for everything below root"""
     out = {}
@@ -290,13 +314,15 @@ def observe_identify(spec, workdir, tag):
     fname = spec.get("name", "model.bin")
     path = os.path.join(d, "in", fname)
     build(spec, path)
+    ptmp = private_tmp(d)
     before = listing(d)
     cwd = os.getcwd()
     os.chdir(os.path.join(d, "cwd"))
     try:
-        (s1, f1), out1 = call_quiet(poly.identify_pytorch_file_format, path)
-        (s2, f2), _ = call_quiet(poly.identify_pytorch_file_format, path)
-        (sp, props), _ = call_quiet(poly.find_file_properties, path)
+        with ptmp:
+            (s1, f1), out1 = call_quiet(poly.identify_pytorch_file_format, path)
+            (s2, f2), _ = call_quiet(poly.identify_pytorch_file_format, path)
+            (sp, props), _ = call_quiet(poly.find_file_properties, path)
         after = listing(d)
         cpath = os.path.join(d, "copy", "renamed_" + fname + ".dat")
         shutil.copyfile(path, cpath)
@@ -400,6 +426,7 @@ def observe_pair(master, a, b, out_name, workdir, tag):
         if ent["k"] != "missing":
             shutil.copyfile(os.path.join(master, ent["id"]), os.path.join(d, sub, ent["name"]))
         rels.append(rel)
+    ptmp = private_tmp(d)
     before = listing(d)
     cwd = os.getcwd()
     os.chdir(cwdp)
@@ -407,7 +434,8 @@ def observe_pair(master, a, b, out_name, workdir, tag):
         kw = {"print_results": True}
         if out_name is not None:
             kw["polyglot_file_name"] = out_name
-        (st, val), out = call_quiet(poly.create_polyglot, rels[0], rels[1], **kw)
+        with ptmp:
+            (st, val), out = call_quiet(poly.create_polyglot, rels[0], rels[1], **kw)
     finally:
         os.chdir(cwd)
     after = listing(d)
